@@ -5,6 +5,20 @@
 use crate::rng::Rng;
 use futures::io::{AsyncRead, AsyncSeek, AsyncWrite};
 use std::io::{Error, ErrorKind, Read, Result, Seek, SeekFrom, Write};
+
+pub static FAULT_SALT: std::sync::atomic::AtomicU64 = std::sync::atomic::AtomicU64::new(0);
+pub const FAULT_KINDS: [ErrorKind; 10] = [
+    ErrorKind::Other,
+    ErrorKind::UnexpectedEof,
+    ErrorKind::BrokenPipe,
+    ErrorKind::WriteZero,
+    ErrorKind::TimedOut,
+    ErrorKind::InvalidData,
+    ErrorKind::InvalidInput,
+    ErrorKind::NotFound,
+    ErrorKind::PermissionDenied,
+    ErrorKind::ConnectionReset,
+];
 use std::pin::Pin;
 use std::task::{Context, Poll};
 
@@ -166,7 +180,10 @@ impl Core {
                     data: Vec::new(),
                 });
             }
-            return Err(Error::new(ErrorKind::Other, "injected stream failure"));
+            // the error kind rotates with the fault position and a per-scenario salt (fail-stop faults of every kind must
+            // be reported alike; `Interrupted` and `WouldBlock` mean "try again" and are not fail-stop faults)
+            let sel = self.fail_from.unwrap_or(0).wrapping_add(FAULT_SALT.load(std::sync::atomic::Ordering::Relaxed));
+            return Err(Error::new(FAULT_KINDS[(sel % FAULT_KINDS.len() as u64) as usize], "injected stream failure"));
         }
         Ok(())
     }
